@@ -20,7 +20,7 @@ PROP = [('InverseMatcher returned','C01'),('RequireMatcher.skip_to_quality','C05
  ('in-memory codec recorded empty','C18'),('add_document() that raised part-way','C08'),('plain-text codec could not write','C10'),
  ('inlinelimit > 1) raised AttributeError','C10'),('inlinelimit > 1) broke term vectors','C10'),
  ('results page over an empty result','C14'),('empty filter (set or Results)','C14'),('collapsing never folded','C14'),
- ('single clause lost its boost','C09'),('partly filled top-N list','C14'),('len() of a limited search undercounted','C01')]
+ ('single clause lost its boost','C09'),('partly filled top-N list','C14'),('len() of a limited search undercounted','C01'),('ArrayUnionMatcher dropped matching','C01'),('ReverseWeighting reported lower bounds','C12'),('crashed under FunctionWeighting','C09'),('PL2 and DFree reported quality bounds','C12')]
 log = subprocess.check_output(['git','-C','/repo','log','--reverse','--format=%h|%s','173ed2e..HEAD']).decode().strip().split('\n')
 p = '/verif/known_findings.json'
 d = json.load(open(p))
